@@ -62,8 +62,18 @@ func zzGuestSnap(m *Memory) map[uint32][]byte {
 // yielded hash, provided preimages, raw entries, privileges) is unchanged; read-only and
 // unmapped guest pages are never written and the page count never changes.
 //zz:workers=16 paths=200000
-func ZZ_C07_discipline() {
+func ZZ_C07_discipline() { zzDiscipline(false) }
+
+// ZZ_C07_discipline_poor: the same obligations with an arbitrary caller balance (0..2^40), which
+// makes the FULL and CASH returns of write, solicit, new, transfer and eject reachable: a call
+// that returns them has not touched any dictionary, counter or balance.
+//zz:workers=16 paths=200000
+func ZZ_C07_discipline_poor() { zzDiscipline(true) }
+
+func zzDiscipline(poor bool) {
 	zzCallerAssigns = true
+	zzPoorCaller = poor
+	defer func() { zzPoorCaller = false }()
 	hc := zzAccumulateCalls[zzvt.Range("hostCall", 0, len(zzAccumulateCalls)-1)]
 	in, regs := zzRichCtxN(2)
 	for k, r := range hc.addrs {
